@@ -698,6 +698,11 @@ impl Debugger {
     ///
     /// **! change exploration context**
     pub fn restart_debugee(&mut self) -> Result<Pid, Error> {
+        self.restart_debugee_with_reason().map(|(pid, _)| pid)
+    }
+
+    /// Restart the debugee and run it to its first stop; return the new pid and why it stopped.
+    fn restart_debugee_with_reason(&mut self) -> Result<(Pid, StopReason), Error> {
         match self.debugee.execution_status() {
             ExecutionStatus::Unload => {
                 // all breakpoints and watchpoints already disabled by default
@@ -736,8 +741,8 @@ impl Debugger {
 
         self.hooks.on_process_install(self.process.pid(), None);
         self.expl_context = ExplorationContext::new_non_running(self.process.pid());
-        self.continue_execution()?;
-        Ok(self.process.pid())
+        let reason = self.continue_execution()?;
+        Ok((self.process.pid(), reason))
     }
 
     fn start_debugee_inner(&mut self, force: bool, dry_start: bool) -> Result<(), Error> {
@@ -794,10 +799,9 @@ impl Debugger {
         match self.debugee.execution_status() {
             ExecutionStatus::Unload => self.continue_execution(),
             ExecutionStatus::InProgress | ExecutionStatus::Exited => {
-                self.restart_debugee()?;
-                // restart_debugee itself continues execution until the next stop.
-                // If it returns successfully, we are already stopped; map this to a synthetic reason.
-                Ok(StopReason::DebugeeStart)
+                // the restarted debugee has already run to its first stop (or to its end):
+                // report that stop, not a synthetic one
+                Ok(self.restart_debugee_with_reason()?.1)
             }
         }
     }
